@@ -81,7 +81,7 @@ EXCLUDED = {
     "bitwise / unsigned / cast operators": "never generated (concrete meaning depends on the bit width); the bool sub-stream uses zext bool->int and trunc int->bool of a value in {0,1}, which mean the same on every reading",
     "assign_bool_ref_cst, backward boolean operations, linear constraints over boolean variables": "reference constraints need a region domain (C15); assume/assign over booleans are rejected by crab's type checker",
 }
-CHECKS = {"C03": ("at", "entails", "csts", "bot"), "C04": ("leq", "at", "bot", "csts"),
+CHECKS = {"C03": ("at", "entails", "csts", "bot"), "C04": ("leq", "at", "bot", "csts", "entails"),
           "C05": ("at", "csts", "bot", "leq"), "C16": ("at", "entails", "csts", "bot", "leq", "botcsts")}
 MAX_SHRINK_PER_BUCKET = 2
 MAX_SHRUNK = 12
@@ -379,6 +379,13 @@ def run_domain(prop, tier, seed, dom, exe, n, known, shrink_ok, base_answers):
         ba = run_cases(exe, name, bl, os.path.join(outd, stream + "-box.cases"))
         examine(res, prop, dom, exe, stream, "box", bl, ba, orc, known, shrink_ok)
         st["box_cases"] = len(bl)
+        # lattice operations on sign classes
+        gl = X.sign_lattice(seed + 47, 200 if tier == "quick" else 486)
+        if dom.get("asc_widen"):
+            gl = [X.ascending_widen(l) for l in gl]
+        ga = run_cases(exe, name, gl, os.path.join(outd, stream + "-signl.cases"))
+        examine(res, prop, dom, exe, stream, "signl", gl, ga,
+                lambda l, a: domhist.oracle(l, X.drop_ghost_csts(a), None, checks, dense=True), known, shrink_ok)
         # meets of arithmetic progressions, judged on a dense sample of small stores
         cl = X.cong_meets(seed + 45, 40 if tier == "quick" else 800)
         ca = run_cases(exe, name, cl, os.path.join(outd, stream + "-cong.cases"))
@@ -397,6 +404,12 @@ def run_domain(prop, tier, seed, dom, exe, n, known, shrink_ok, base_answers):
         examine(res, prop, dom, exe, stream, "bool", bl, ba, lambda l, a: X.bool_oracle(l, a, checks), known, shrink_ok)
         st["bool_cases"] = len(bl)
         st["bool_s"] = round(time.time() - tb, 1)
+    if prop == "C03":
+        # sign algebra: operands pinned to each sign class, then every arithmetic operator, then sign probes
+        sl = X.sign_cases(seed + 46, 120 if tier == "quick" else 2000)
+        sa = run_cases(exe, name, sl, os.path.join(outd, stream + "-sign.cases"))
+        examine(res, prop, dom, exe, stream, "sign", sl, sa,
+                lambda l, a: domhist.oracle(l, X.drop_ghost_csts(a), None, checks, dense=True), known, shrink_ok)
     if prop == "C03" and dom["rel"]:
         # decomposition of general linear constraints against established bounds, with a
         # dense sample of the solutions (domall_extra.lin_samples)
